@@ -27,7 +27,8 @@ RULE = ("seeded base circuits on 2n visible modes, n=1..3: random products of si
         "class); non-trivial = state with complex off-diagonals or entanglement or ancillas")
 MANDATORY = ["nonzero_Y_expectation", "entangled_state", "direct_herald_not_last", "private_ancillas", "n1", "n2", "n3",
              "sampling_result_callback", "tomography_object_reused_after_edit", "base_presented_as:copy",
-             "base_presented_as:frozen_copy", "base_presented_as:unpacked_copy"]
+             "base_presented_as:frozen_copy", "base_presented_as:unpacked_copy", "experiment_without_qubit_post_selection",
+             "data_outside_the_qubit_subspace_refused"]
 DECIDING = ["callback_circuits_checked", "process_postconditions", "earlier_objects_rechecked",
             "rho_vs_independent_inversion"]
 BUDGET = {"quick": 30, "thorough": 480}
@@ -197,6 +198,11 @@ def run(ctx):
         xa_seen: list = []
 
         scribble = [bool(rng.random() < 0.25)]
+        unpost = False
+        if data_kind == "exact" and rng.random() < (0.4 if n >= 2 else 0.1):
+            unpost = str(rng.choice(["all_outputs", "coincidences"]))
+            ctx.bucket("experiment_without_qubit_post_selection")
+            case["experiment_reports"] = unpost
 
         def experiment(circuits, *extra):
             xa_seen.append(list(extra))
@@ -216,6 +222,13 @@ def run(ctx):
                             match.append("".join(setting))
                     seen["settings"].append(match)
                     probs = tomoref.dual_rail_probs(c, in_occ, State)
+                    if unpost:
+                        # an experiment that does not post-select on the qubit subspace (see C16): all outputs holding n
+                        # photons, or only the n-fold coincidences among them
+                        probs = tomoref.all_output_probs(c, in_occ, State)
+                        if unpost == "coincidences":
+                            probs = {k_: v_ for k_, v_ in probs.items() if max(k_.s, default=0) <= 1}
+                        match = match + ["(not recorded)"]
                     if data_kind == "integer_counts":
                         big = int(rng.choice([1000, 10 ** 6, 12345]))
                         probs = {s_: int(round(p_ * big)) for s_, p_ in probs.items()}
@@ -322,6 +335,11 @@ def run(ctx):
                                       mechanism="fidelity_orthogonal_state_not_zero",
                                       monitor="StateTomography.fidelity post-condition")
         except Exception as e:  # noqa: BLE001
+            if unpost and isinstance(e, ValueError) and "invalid state" in str(e).lower():
+                ctx.bucket("data_outside_the_qubit_subspace_refused")       # refused aloud: fine
+                ctx.case((n, tuple(tuple(map(str, g)) for g in log), direct, "refused"), True)
+                drain_into(ctx, case)
+                continue
             ctx.violation(f"StateTomography raised {type(e).__name__}: {e}", case=case,
                           mechanism="state_tomography_raised:" + type(e).__name__ + ":" + direct, monitor="driver")
             ctx.case((n, tuple(tuple(map(str, g)) for g in log), direct), True)
